@@ -156,6 +156,60 @@ def synth_arg(name, ty, bounds):
         return "false"
     return None
 
+def variant_producers(doc):
+    """Fields of the variants of public enums are reachable by destructuring, without any method:
+    one producer per field of every tuple / struct variant of every public enum that has a seed."""
+    idx = doc["index"]
+    out = []
+    # names a client can write: items and re-exports of the crate root
+    root = idx[str(doc["root"])]["inner"]["module"]["items"]
+    nameable = set()
+    for it in root:
+        r = idx.get(str(it))
+        if not r:
+            continue
+        if "use" in r["inner"]:
+            u = r["inner"]["use"]
+            if u.get("is_glob"):
+                m = idx.get(str(u.get("id")))
+                if m and "module" in m["inner"]:
+                    for sub in m["inner"]["module"]["items"]:
+                        si = idx.get(str(sub))
+                        if si and si.get("name") and si.get("visibility") == "public":
+                            nameable.add(si["name"])
+            else:
+                nameable.add(u["name"])
+        elif r.get("name"):
+            nameable.add(r["name"])
+    for k, v in idx.items():
+        if "enum" not in v["inner"] or v["visibility"] != "public":
+            continue
+        name = v["name"]
+        if name not in SEEDS or name not in nameable:
+            continue
+        lets, sexpr = SEEDS[name]
+        for vid in v["inner"]["enum"]["variants"]:
+            vv = idx[str(vid)]
+            kind = vv["inner"]["variant"]["kind"]
+            if kind == "plain":
+                continue
+            if "tuple" in kind:
+                n = len(kind["tuple"])
+                pats = ["(" + ", ".join("x" if i == j else "_" for i in range(n)) + ")" for j in range(n)]
+            else:
+                fields = [idx[str(f)]["name"] for f in kind["struct"]["fields"]]
+                pats = ["{ %s: x, .. }" % f for f in fields]
+            for j, pat in enumerate(pats):
+                if name == "Data":
+                    # every variant occurs in bucket "b": take the first entry of that kind
+                    blets = SEEDS["Bucket"][0]
+                    expr = "s0.cursor().find_map(|d| match d { %s::%s%s => Some(x), _ => None }).unwrap()" % (name, vv["name"], pat)
+                    out.append({"id": "variant:%s::%s.%d" % (name, vv["name"], j), "lets": blets, "expr": expr, "out": "field", "outfull": "field", "consumes_seed": False})
+                else:
+                    expr = "match %s { %s::%s%s => Some(x), _ => None }.unwrap()" % (sexpr, name, vv["name"], pat)
+                    out.append({"id": "variant:%s::%s.%d" % (name, vv["name"], j), "lets": lets, "expr": expr, "out": "field", "outfull": "field", "consumes_seed": True})
+    return out
+
 def producers(methods):
     prods = []
     gaps = []
@@ -421,6 +475,7 @@ def main():
     doc = rustdoc_json()
     methods = api_methods(doc)
     prods, gaps = producers(methods)
+    prods += variant_producers(doc)
     rlib, deps = find_rlib()
 
     fns = {}
